@@ -106,7 +106,7 @@ MCInTrial(r) ==
      \/ /\ ~stopped /\ ~needRead /\ cfg[r].rcond /\ inner[r].k >= 1 /\ ~inner[r].rcf
         /\ Lin(r, [op |-> "solve", raised |-> "LinearSolverError", finite |-> TRUE, resOK |-> TRUE, phase |-> "rcond"])   \* a failed estimate is "no estimate"
      \/ /\ ~stopped /\ ~needRead /\ inner[r].k < KMax(r)
-        /\ NewtonStep(r, [k |-> inner[r].k, raised |-> "none"])
+        /\ NewtonStep(r, [k |-> inner[r].k, raised |-> "none", trialArgs |-> TRUE])
      \/ /\ ~stopped /\ needRead
         /\ Tick(r, "inner")
      \/ /\ stopped
